@@ -264,5 +264,125 @@ FbAccept(e) ==
       [] e.op = "restart" -> TRUE              \* resume marker after an event with crash # 0
       [] OTHER -> FALSE
 
-FbKnownKey(e) == ""
+(***************************************************************************)
+(* Known findings (DESIGN.md 2.8): each key is enabled only for its op +   *)
+(* input class + the exact wrong outcome described, and only when listed   *)
+(* in known_findings.json.                                                 *)
+(*                                                                         *)
+(* C16-inv-one-unreduced: fb_inv_exgcd (the default fb_inv) and            *)
+(* fb_inv_lower (fb_invn_low) start their Euclidean loop without testing   *)
+(* u = 1: for a = 1 they reduce f against 1 and return g1 = f + 1, which   *)
+(* is congruent to 1 but has degree m (not a reduced element; fb_cmp with  *)
+(* 1 says NE).  Reached also through fb_exp* with a negative exponent      *)
+(* whenever a^|x| = 1.                                                     *)
+(* C16-exp-slide-exponent-capacity: fb_exp_slide (the default fb_exp) has  *)
+(* a recoding buffer of m + 1 entries: longer exponents are refused with   *)
+(* ERR_NO_BUFFER instead of being computed.                                *)
+(* C16-rdc-basic-low-zero: fb_rdc_basic compares an int bit index with the *)
+(* unsigned RLC_FB_BITS; when the low fd digits are all zero after the     *)
+(* high half has been folded (the input is 0, or a multiple of f reaching  *)
+(* into the high half) the index -1 passes the test and memory far outside *)
+(* the operand is read and written (SIGSEGV).                              *)
+(* C16-cmp-dig-xor: fb_cmp_dig xors ALL digits of a into the digit b and   *)
+(* tests the result for zero: any a whose digits xor to b compares RLC_EQ. *)
+(* C16-fb2-slv-trace-one: fb2_slv(c, a) for Tr(a) = Tr_m(a1) = 0 (solvable)*)
+(* but Tr_m(a0) = 1: the second solve is done on an element of trace one   *)
+(* and the result solves z^2 + z = a + 1 instead of z^2 + z = a.           *)
+(*                                                                         *)
+(* C16-dblbasic-order-two: affine doubling of the point of order two       *)
+(* (0, sqrt b) inverts x = 0: fb_inv throws, nothing is returned (expected *)
+(* the identity); reached through eb_dbl_basic, eb_add_basic(T, T),        *)
+(* eb_sub_basic(T, T').                                                    *)
+(* C16-hlv-identity: eb_hlv has no case for the identity: it returns the   *)
+(* finite pair (0, lambda), which is not a point of the curve.             *)
+(* C16-cmp-zero-infinity: eb_cmp special-cases the identity only when BOTH *)
+(* operands are the identity; the identity as eb_add_projc returns it for  *)
+(* P + (-P) (all-zero triple tagged PROJC) compares RLC_EQ to every finite *)
+(* projective point (both cross products are 0).                           *)
+(* C16-mul-long-scalar: no eb multiplication reduces the scalar modulo the *)
+(* group order.  For a scalar with more bits than n: the (t)NAF recodings  *)
+(* (lwnaf, rwnaf, fix_lwnaf, all sim) refuse it with ERR_NO_BUFFER once it  *)
+(* exceeds their m + 1 (m + 8) entries; eb_mul_fix_basic reads table       *)
+(* entries that were never built, the combs ignore the bits above their    *)
+(* depth * ceil(bits(n)/depth) columns, the Lopez-Dahab ladder starts from *)
+(* bit bits(n) of k + n or k + 2n: all three silently return a point that  *)
+(* is not [k]P.                                                            *)
+(* C16-mul-projective-operand: eb_mul_lodah reads only x and y of its      *)
+(* operand, the right-to-left tau-NAF (eb_mul_rwnaf on Koblitz curves)     *)
+(* applies Frobenius to x and y but not z, eb_mul_halve takes every        *)
+(* non-affine operand for lambda coordinates: with a Lopez-Dahab           *)
+(* projective operand (z # 1) - which the other routines accept - the      *)
+(* result is not [k]P.                                                     *)
+(* C16-lodah-identity: eb_mul_lodah has no case for P = identity and       *)
+(* returns a finite point.                                                 *)
+(* C16-simjoint-equal-opposite: eb_mul_sim_joint normalises its table      *)
+(* {P+Q, P-Q} with eb_norm_sim, which turns the identity (z = 0, tagged    *)
+(* projective) into the finite pair (0,0): for Q = P or Q = -P the result  *)
+(* is not [k]P + [m]Q.                                                     *)
+(***************************************************************************)
+IsOrderTwo(X) == ~X.inf /\ X.x = <<>>
+LongScalarOps == (EMulOps \cup ESimOps) \ {"eb_mul_basic", "eb_mul_halve"}
+LongScalar(e) == \/ BBits(BNorm(e.k.d)) > BBits(BNorm(e.n.d))
+                 \/ (e.op \in ESimOps /\ BBits(BNorm(e.m2.d)) > BBits(BNorm(e.n.d)))
+RECURSIVE XorDigits(_, _, _)
+XorDigits(raw, w, i) == IF i * w >= Len(raw) THEN <<>>
+                        ELSE GAdd(BNorm(SubSeq(raw, i * w + 1, (i + 1) * w)), XorDigits(raw, w, i + 1))
+RanClean(e) == e.crash = 0 /\ e.err = 0 /\ e.code = 0 /\ e.unch
+InvOneOutcome(e) == RanClean(e) /\ Len(e.c) = e.w * e.fd /\ V(e.c) = GAdd(F(e), <<1>>)
+
+FbKnownKey(e) ==
+    CASE e.op \in {"fb_inv", "fb_inv_exgcd", "fb_inv_lower"} /\ In1(e) /\ A(e) = <<1>> /\ InvOneOutcome(e)
+            -> "C16-inv-one-unreduced"
+      [] e.op \in ExpOps /\ In1(e) /\ IntOf(e.e).neg /\ A(e) # <<>> /\ InvOneOutcome(e)
+                /\ GExp(A(e), IntOf(e.e).mag, F(e)) = <<1>>
+            -> "C16-inv-one-unreduced"
+      [] e.op \in {"fb_exp", "fb_exp_slide"} /\ BBits(BNorm(e.e.d)) > e.m + 1
+                /\ e.crash = 0 /\ e.err # 0 /\ e.code = 1 /\ e.unch
+            -> "C16-exp-slide-exponent-capacity"
+      [] e.op = "fb_rdc_basic" /\ e.crash # 0 /\ FieldOk(e) /\ Len(e.t) = 2 * e.w * e.fd
+                /\ (V(e.t) = <<>> \/ BBits(V(e.t)) > 8 * e.w * e.fd)
+                /\ GModPoly(V(e.t), F(e)) = <<>>
+            -> "C16-rdc-basic-low-zero"
+      [] e.op = "fb_cmp_dig" /\ In1(e) /\ RanClean(e) /\ e.ret = e.EQ /\ A(e) # V(e.dg)
+                /\ XorDigits(e.a, e.w, 0) = V(e.dg)
+            -> "C16-cmp-dig-xor"
+      [] e.op = "fb2_slv" /\ FieldOk(e) /\ Canon2(e, e.A) /\ RanClean(e) /\ Canon2(e, e.C)
+                /\ GTrace(V(e.A[2]), F(e)) = 0 /\ GTrace(V(e.A[1]), F(e)) = 1
+                /\ G2Add(G2Sqr(V2(e.C), F(e)), V2(e.C)) = <<GAdd(V(e.A[1]), <<1>>), V(e.A[2])>>
+            -> "C16-fb2-slv-trace-one"
+      \* ------------------------------------------------------------ curves
+      [] e.op \in {"eb_dbl_basic", "eb_add_basic", "eb_sub_basic"} /\ CurveOk(e)
+                /\ RepOk(e, e.P, 1) /\ OnC(e, e.P) /\ IsOrderTwo(EAbs(e, e.P))
+                /\ (e.op = "eb_dbl_basic" \/ (RepOk(e, e.Q, 1) /\ EEq(EAbs(e, e.Q), EAbs(e, e.P))))
+                /\ e.crash = 0 /\ e.err # 0 /\ e.code = 1
+            -> "C16-dblbasic-order-two"
+      [] e.op = "eb_hlv" /\ CurveOk(e) /\ ValidTag(e.P) /\ PCanon(e, e.P) /\ EAbs(e, e.P).inf
+                /\ RanClean(e) /\ AnyRep(e, e.R) /\ ~EOnCurve(EAbs(e, e.R), Crv(e))
+            -> "C16-hlv-identity"
+      [] e.op = "eb_cmp" /\ CurveOk(e) /\ AnyRep(e, e.P) /\ AnyRep(e, e.Q) /\ RanClean(e)
+                /\ EAbs(e, e.P).inf # EAbs(e, e.Q).inf
+                /\ e.P.c = 2 /\ e.Q.c = 2
+                /\ LET Z == IF EAbs(e, e.P).inf THEN e.P ELSE e.Q IN V(Z.x) = <<>> /\ V(Z.y) = <<>>
+                /\ e.ret = e.EQ
+            -> "C16-cmp-zero-infinity"
+      [] e.op \in LongScalarOps /\ CurveOk(e) /\ LongScalar(e)
+                /\ RepOk(e, e.P, SysOf(e)) /\ OnC(e, e.P)
+                /\ e.crash = 0
+                /\ (IF e.err # 0 THEN e.code = 1 ELSE RanClean(e) /\ AnyRep(e, e.R))
+            -> "C16-mul-long-scalar"
+      [] e.op \in {"eb_mul_lodah", "eb_mul_rwnaf", "eb_mul_halve"} /\ CurveOk(e)
+                /\ (e.op = "eb_mul_rwnaf" => e.kbl = 1)
+                /\ RepOk(e, e.P, 2) /\ e.P.c = 2 /\ V(e.P.z) \notin {<<>>, <<1>>} /\ OnC(e, e.P)
+                /\ BNorm(e.k.d) # <<>>
+                /\ RanClean(e) /\ AnyRep(e, e.R) /\ ~EEq(EAbs(e, e.R), KP(e, e.k, e.P))
+            -> "C16-mul-projective-operand"
+      [] e.op = "eb_mul_lodah" /\ CurveOk(e) /\ RepOk(e, e.P, 2) /\ EAbs(e, e.P).inf /\ BNorm(e.k.d) # <<>>
+                /\ RanClean(e) /\ AnyRep(e, e.R) /\ ~EAbs(e, e.R).inf
+            -> "C16-lodah-identity"
+      [] e.op = "eb_mul_sim_joint" /\ CurveOk(e) /\ RepOk(e, e.P, 2) /\ RepOk(e, e.Q, 2) /\ OnC(e, e.P) /\ OnC(e, e.Q)
+                /\ ~EAbs(e, e.P).inf /\ ~EAbs(e, e.Q).inf /\ BNorm(e.k.d) # <<>> /\ BNorm(e.m2.d) # <<>>
+                /\ (EEq(EAbs(e, e.P), EAbs(e, e.Q)) \/ EEq(EAbs(e, e.P), ENeg(EAbs(e, e.Q))))
+                /\ e.crash = 0 /\ (e.err # 0 \/ (RanClean(e) /\ AnyRep(e, e.R)))
+            -> "C16-simjoint-equal-opposite"
+      [] OTHER -> ""
 =============================================================================
